@@ -29,3 +29,17 @@ Definition pcase_pieces (c : pcase) : option pstmt := stmt_of (pcase_tree c) (c_
 Definition fcase_tree (c : fcase) : select :=
   prof_selector_abs (tbl_lookup (fc_full c)) (fc_table c) (fc_from_ns c) (fc_to_ns c) (fc_sels c).
 Definition fcase_pieces (c : fcase) : option pstmt := stmt_of (fcase_tree c) (fc_cluster c).
+
+(* ---------- trees that differ only in their values ----------
+   [erase_sel q]: q with the content of every StrV node erased.  Two trees with the same erasure differ only inside their values;
+   SqlEraseProofs.erased_equal_same_structure: they print statements with the same token structure.  A planner is
+   VALUE-INDEPENDENT when requests that differ only in their string values are planned into trees with the same erasure. *)
+Definition erase : expr -> expr := subst (fun _ => EmptyString).
+Definition erase_sel : select -> select := subst_sel (fun _ => EmptyString).
+
+(* Pyroscope selectors that differ only in their values (and in the names of stored labels, which are values too: key == 'name'):
+   same operator, same pseudo label or both stored labels *)
+Definition sel_variant (s s' : selector) : Prop :=
+  sl_op s = sl_op s' /\ pseudo_of (sl_name s) = pseudo_of (sl_name s').
+(* Prometheus / LogQL stream matchers that differ only in label name and value: same operator *)
+Definition matcher_variant (m m' : matcher) : Prop := m_op m = m_op m'.
